@@ -91,6 +91,88 @@ func runTplReader(t int, b []byte, src string) string {
 	})
 }
 
+// runReuse: a decoder object is used on (t1,b1) first — which may fail part-way — then reset / released and
+// re-obtained, and used on (t2,b2). The second use must behave like a fresh decoder.
+func runReuse(kind string, t1 int, b1 []byte, t2 int, b2 []byte, src2 string) string {
+	return lib.Guard(func() string {
+		switch kind {
+		case "bytes-reset", "bytes-pool":
+			d := thrift.NewBytesSkipDecoder(b1)
+			_, _ = d.Next(thrift.TType(int8(t1)))
+			if kind == "bytes-reset" {
+				d.Reset(b2)
+			} else {
+				d.Release()
+				d = thrift.NewBytesSkipDecoder(b2)
+			}
+			got, err := d.Next(thrift.TType(int8(t2)))
+			if err != nil {
+				return "err " + lib.ErrStr(err)
+			}
+			rem := 0
+			for rem <= len(b2) {
+				if _, e := d.Next(thrift.BYTE); e != nil {
+					break
+				}
+				rem++
+			}
+			return fmt.Sprintf("ok %s %d", lib.Hex(got), rem)
+		case "bufiox-pool":
+			r1 := bufiox.NewBytesReader(append([]byte(nil), b1...))
+			d := thrift.NewSkipDecoder(r1)
+			_, _ = d.Next(thrift.TType(int8(t1)))
+			d.Release()
+			r2, _ := mkReader(b2, src2)
+			d2 := thrift.NewSkipDecoder(r2)
+			got, err := d2.Next(thrift.TType(int8(t2)))
+			if err != nil {
+				return "err " + lib.ErrStr(err)
+			}
+			return fmt.Sprintf("ok %s %d", lib.Hex(got), r2.ReadLen())
+		case "reader-reset", "reader-pool":
+			d := thrift.NewReaderSkipDecoder(lib.NewSource(b1, benignScript(lib.NewRng(7), len(b1))))
+			_, _ = d.Next(thrift.TType(int8(t1)))
+			s2 := lib.NewSource(b2, lib.ParseScript(src2))
+			if kind == "reader-reset" {
+				d.Reset(s2)
+			} else {
+				d.Release()
+				d = thrift.NewReaderSkipDecoder(s2)
+			}
+			got, err := d.Next(thrift.TType(int8(t2)))
+			if err != nil {
+				return "err " + lib.ErrStr(err)
+			}
+			return fmt.Sprintf("ok %s %d", lib.Hex(got), s2.Pos)
+		}
+		return "bad-kind"
+	})
+}
+
+func emitReuse(r *lib.Rng, t1 int, b1 []byte, t2 int, b2 []byte) {
+	if lib.MaxRequest(t1, b1) > allocCap || lib.MaxRequest(t2, b2) > allocCap {
+		return
+	}
+	for _, kind := range []string{"bytes-reset", "bytes-pool", "bufiox-pool", "reader-reset", "reader-pool"} {
+		src := "-"
+		switch kind {
+		case "bufiox-pool":
+			if r.Bool() {
+				src = "b" + strconv.Itoa(len(b2)+r.Pick(0, 3))
+				if len(b2) == 0 {
+					src = "b1"
+				}
+			} else {
+				src = benignScript(r, len(b2)).String()
+			}
+		case "reader-reset", "reader-pool":
+			src = benignScript(r, len(b2)).String()
+		}
+		em.Count("reuse:" + kind)
+		em.Line(runReuse(kind, t1, b1, t2, b2, src), "skipreuse", kind, strconv.Itoa(t1), lib.Hex(b1), strconv.Itoa(t2), lib.Hex(b2), src)
+	}
+}
+
 // emit runs one input on every skipper (subject to the allocation guard)
 func emit(r *lib.Rng, class string, t int, b []byte, streams bool) {
 	em.Count("class:" + class)
@@ -319,6 +401,17 @@ func genCases(o *lib.Opts) {
 			m[pos] = lib.BoundaryBytes[r.Intn(len(lib.BoundaryBytes))]
 			emit(r, "perturb", t, m, k%3 == 0)
 		}
+		// object reuse: a first use that fails part-way (a cut of this value) or succeeds, then a second value
+		if i%3 == 0 && len(v) > 1 {
+			t2 := lib.AllTypes[r.Intn(len(lib.AllTypes))]
+			v2 := g.Gen(t2, r.Pick(1, 2, 3))
+			b2 := append(append([]byte(nil), v2...), r.Bytes(r.Pick(0, 2))...)
+			first := v[:r.Intn(len(v))]
+			if r.Chance(1, 4) {
+				first = b
+			}
+			emitReuse(r, t, first, t2, b2)
+		}
 		// splice two values
 		if i%5 == 0 && len(v) > 2 {
 			w := g.Gen(lib.AllTypes[r.Intn(len(lib.AllTypes))], 3)
@@ -365,6 +458,12 @@ func replay(lines [][]string) {
 	r := lib.NewRng(1)
 	_ = r
 	for _, f := range lines {
+		if len(f) == 7 && f[0] == "skipreuse" {
+			t1, _ := strconv.Atoi(f[2])
+			t2, _ := strconv.Atoi(f[4])
+			em.Line(runReuse(f[1], t1, lib.UnHex(f[3]), t2, lib.UnHex(f[5]), f[6]), f...)
+			continue
+		}
 		if len(f) != 5 || f[0] != "skip" {
 			continue
 		}
